@@ -24,6 +24,13 @@
 // {0,1,15,16,17,33,100,5000}, both directions, the reading side's socket fragmenting reads by
 // every pattern of a fixed list (the fragmentation IS the decrypter's call pattern).
 // Oracle: every packet arrives intact, in order, nothing is left over.
+//
+// extra.go adds (white-box audit): every call length 0..4096, histories of the caller's IV
+// slice, src address residues; Conn set-up histories (SetCipher / SetThreshold in mid-stream,
+// call orders, Listener.Accept, (n, io.EOF) socket answers), large packets, sizes around the
+// threshold, full-duplex use at socket-call granularity.
+//
+// The budget that may stop a walk is counted in process CPU time (see pastDeadline).
 package main
 
 import (
@@ -34,10 +41,13 @@ import (
 	"encoding/json"
 	"errors"
 	"fmt"
+	"io"
 	"net"
 	"reflect"
 	"sync/atomic"
+	"syscall"
 	"time"
+	"unsafe"
 
 	mcnet "github.com/Tnze/go-mc/net"
 	"github.com/Tnze/go-mc/net/CFB8"
@@ -62,14 +72,32 @@ type Case struct {
 	Material int    `json:"material"`
 	Prefix   int    `json:"prefix"` // -1: none; else an in-place call of that length first
 	Calls    []Call `json:"calls,omitempty"`
-	Probe    bool   `json:"probe,omitempty"`        // a final 40-byte in-place call
-	Long     bool   `json:"long_message,omitempty"` // 4096-byte stream material and arena
+	Probe    bool   `json:"probe,omitempty"`              // a final 40-byte in-place call
+	Long     bool   `json:"long_message,omitempty"`       // 4096-byte stream material and arena
+	IVMode   string `json:"iv_buffer,omitempty"`          // what the caller does with the IV slice it passed (see ivModes)
+	Align    int    `json:"src_address_mod_16,omitempty"` // 0: wherever the arena starts; k in 1..16: &src[0] = k (mod 16)
 	// conn
 	Threshold  int   `json:"threshold,omitempty"`
 	Sizes      []int `json:"sizes,omitempty"`
 	BtoA       bool  `json:"b_to_a,omitempty"`
 	Frag       []int `json:"read_fragments,omitempty"` // cyclic cap of each socket Read; 0 = everything available
 	Interleave bool  `json:"interleave,omitempty"`     // write one / read one instead of write all / read all
+	// set-up history of the two ends: SetThreshold is called before packet TAt and SetCipher before packet
+	// CAt (0 = before the first packet, len(Sizes) = after the last one, before the reverse packet); when both
+	// fall on the same position OrderS / OrderR ("TC" default, or "CT") give the order of the two calls on the
+	// sending / the receiving end. Packets before CAt travel in clear, packets before TAt without compression.
+	TAt     int    `json:"set_threshold_before_packet,omitempty"`
+	CAt     int    `json:"set_cipher_before_packet,omitempty"`
+	OrderS  string `json:"sender_call_order,omitempty"`
+	OrderR  string `json:"receiver_call_order,omitempty"`
+	EOFData bool   `json:"eof_with_last_bytes,omitempty"` // the socket Read that takes the last written byte returns (n, io.EOF)
+	Accept  bool   `json:"b_end_from_listener_accept,omitempty"`
+	// full-duplex use at socket-call granularity: "write-during-read" = inside the DuplexAt-th socket Read of
+	// the receiving end (bytes already copied out, Read not yet returned) that end writes the reverse packet;
+	// "read-during-write" = inside the DuplexAt-th socket Write of the sending end (bytes not yet taken) that
+	// end reads the reverse packet, which its peer wrote beforehand.
+	Duplex   string `json:"duplex,omitempty"`
+	DuplexAt int    `json:"duplex_at_socket_call,omitempty"`
 }
 
 var rep *engine.Report
@@ -122,6 +150,9 @@ func layout(L, alias int) (so, do, dl int) {
 	engine.HarnessError("bad aliasing index %d", alias)
 	return
 }
+
+func newArena() []byte     { return make([]byte, arenaSize+16) }
+func newLongArena() []byte { return make([]byte, 2*longMat+64+2*guard+16) }
 
 // carve returns src and dst for a call of length L inside arena.
 func carve(arena []byte, L, alias int) (src, dst []byte) {
@@ -202,18 +233,20 @@ func newConfigLen(decrypt bool, keySize, m, total int) *config {
 	return c
 }
 
-func (c *config) newStream() *CFB8.CFB8 {
+func (c *config) newStream() *CFB8.CFB8 { return c.newStreamIV(c.iv) }
+
+func (c *config) newStreamIV(iv []byte) *CFB8.CFB8 {
 	if c.decrypt {
-		return CFB8.NewCFB8Decrypt(c.blk, c.iv)
+		return CFB8.NewCFB8Decrypt(c.blk, iv)
 	}
-	return CFB8.NewCFB8Encrypt(c.blk, c.iv)
+	return CFB8.NewCFB8Encrypt(c.blk, iv)
 }
 
 // ---------------------------------------------------------------------------------------
 // stream judge
 
 var (
-	deadline      time.Time
+	cpuBudget     time.Duration // work budget in process CPU time (see pastDeadline)
 	skippedShards int64
 	ivPosReadable int32                = 1
 	covered       [2][34][17][7]uint32 // (direction, ivPos before the call, length, aliasing) seen
@@ -223,6 +256,19 @@ var (
 	streamSeqs    int64
 	roundTrips    int64
 )
+
+// pastDeadline: the budget that stops a walk is counted in CPU time consumed by this process
+// (75 s x workers for quick, 14 min x workers for thorough, i.e. the wall-clock limits on an
+// otherwise idle machine), not in wall time: on a machine shared with other jobs the same work
+// is done and the same cases are covered, only later.
+func pastDeadline() bool {
+	var ru syscall.Rusage
+	if err := syscall.Getrusage(syscall.RUSAGE_SELF, &ru); err != nil {
+		return false
+	}
+	used := time.Duration(ru.Utime.Nano() + ru.Stime.Nano())
+	return used > cpuBudget
+}
 
 func readIvPos(cf *CFB8.CFB8) int {
 	if atomic.LoadInt32(&ivPosReadable) == 0 {
@@ -268,19 +314,84 @@ type stepper struct {
 	calls int
 	out   []byte // outputs concatenated (for the round-trip clause)
 	dir   int
+	// caller-side history of the IV slice (see ivModes) and address alignment
+	ivMode  string
+	ivBuf   []byte     // the caller's IV buffer with its whole capacity (private to this stepper)
+	other   *CFB8.CFB8 // a second stream made from the same buffer after it was refilled
+	scratch [19]byte
+	align   int
 }
 
 func newStepper(cfg *config, arena []byte) *stepper {
-	s := &stepper{cfg: cfg, arena: arena, prev: "none"}
+	return newStepperMode(cfg, arena, "", 0)
+}
+
+func newStepperMode(cfg *config, arena []byte, ivMode string, align int) *stepper {
+	s := &stepper{cfg: cfg, arena: arena, prev: "none", ivMode: ivMode, align: align}
 	if cfg.decrypt {
 		s.dir = 1
+	}
+	if align < 0 || align > 16 {
+		engine.HarnessError("bad alignment %d", align)
+	}
+	// the arena handed in is 16 bytes longer than needed (newArena / newLongArena)
+	s.arena = arena[:len(arena)-16]
+	if align != 0 {
+		// start where &src[0] (guard bytes in, for every layout with src first and for the in-place
+		// layout) has the wanted residue
+		base := int(uintptr(unsafe.Pointer(&arena[guard])) & 15)
+		sh := (align - base + 32) & 15
+		s.arena = arena[sh : len(arena)-16+sh]
 	}
 	s.reset()
 	return s
 }
 
+// ivModes: what the caller does with the IV slice it handed to the constructor. The statement
+// quantifies over the IV VALUE given to NewCFB8Encrypt/Decrypt; the slice stays the caller's.
+var ivModes = []string{
+	"exact-capacity",                 // len 16, cap 16
+	"overwritten-after-construction", // len 16 of a 96-byte buffer; whole buffer refilled right after the constructor returns
+	"overwritten-after-first-call",   // same, refilled after the first XORKeyStream call
+	"reused-for-second-stream",       // buffer refilled with another IV, a second stream built from it and used between the calls
+}
+
+func scribble(b []byte) {
+	b = b[:cap(b)]
+	for i := range b {
+		b[i] = 0xA7 ^ byte(i*29)
+	}
+}
+
 func (s *stepper) reset() {
-	s.cf = s.cfg.newStream()
+	s.other = nil
+	switch s.ivMode {
+	case "":
+		s.cf = s.cfg.newStream()
+	case "exact-capacity":
+		iv := make([]byte, 16)
+		copy(iv, s.cfg.iv)
+		s.cf = s.cfg.newStreamIV(iv)
+	case "overwritten-after-construction", "overwritten-after-first-call", "reused-for-second-stream":
+		if s.ivBuf == nil {
+			s.ivBuf = make([]byte, 96)
+		}
+		for i := range s.ivBuf {
+			s.ivBuf[i] = 0
+		}
+		iv := s.ivBuf[:16]
+		copy(iv, s.cfg.iv)
+		s.cf = s.cfg.newStreamIV(iv)
+		switch s.ivMode {
+		case "overwritten-after-construction":
+			scribble(iv)
+		case "reused-for-second-stream":
+			scribble(iv)
+			s.other = s.cfg.newStreamIV(iv)
+		}
+	default:
+		engine.HarnessError("unknown iv mode %q", s.ivMode)
+	}
 	s.off = 0
 	s.prev = "none"
 	s.calls = 0
@@ -319,7 +430,23 @@ func (s *stepper) step(L, alias int, keepOut bool) (class, detail string) {
 	}
 	kind, frame, panicked := engine.Guard(func() { s.cf.XORKeyStream(dst, src) })
 	s.calls++
+	if s.calls == 1 && s.ivMode == "overwritten-after-first-call" {
+		scribble(s.ivBuf)
+	}
+	if s.other != nil {
+		// the second stream (other IV, same key) works between the calls of the judged one
+		for i := range s.scratch {
+			s.scratch[i] = byte(i + s.calls)
+		}
+		engine.Guard(func() { s.other.XORKeyStream(s.scratch[:], s.scratch[:]) })
+	}
 	shape := shapeOf(L, alias)
+	if s.ivMode != "" {
+		shape += ",iv-buffer=" + s.ivMode
+	}
+	if s.align != 0 {
+		shape += ",src-address-chosen"
+	}
 	pfx := "stream/" + dirName(cfg.decrypt) + "/XORKeyStream/"
 	if panicked {
 		return pfx + "panic/" + frame + "/" + kind + "/this=" + shape, fmt.Sprintf("call %d (len %d, %s) at stream offset %d panicked: %s", s.calls, L, aliases[alias], s.off, kind)
@@ -368,7 +495,7 @@ func (s *stepper) step(L, alias int, keepOut bool) (class, detail string) {
 
 // runStream executes a whole stream case (used by the enumerators' failure path and by replay).
 func runStream(c *Case, cfg *config, arena []byte) {
-	s := newStepper(cfg, arena)
+	s := newStepperMode(cfg, arena, c.IVMode, c.Align)
 	type cl struct{ L, a int }
 	var seq []cl
 	if c.Prefix >= 0 {
@@ -393,7 +520,7 @@ func runStream(c *Case, cfg *config, arena []byte) {
 }
 
 func recordStream(class, detail string, c *Case, ncalls, off int) {
-	rep.FailLazy(class, ncalls*1000+off, func() engine.Failure {
+	rep.FailLazy(class, ncalls*10000+off, func() engine.Failure {
 		cc := *c
 		cc.Calls = append([]Call(nil), c.Calls...)
 		// the witness is the history up to the failing call
@@ -488,11 +615,11 @@ func exploreDepth(cfgs []*config, D, nAlias int, prefixes []int, probe bool) {
 	}
 	engine.ParallelFor(len(shards), func(_, si int) {
 		sh := shards[si]
-		if time.Now().After(deadline) {
+		if pastDeadline() {
 			atomic.AddInt64(&skippedShards, 1)
 			return
 		}
-		arena := make([]byte, arenaSize)
+		arena := newArena()
 		s := newStepper(sh.cfg, arena)
 		ops := make([]int, D)
 		ops[0] = sh.first
@@ -573,7 +700,7 @@ func roundTripFamily(cfgs []*config) {
 		}
 	}
 	engine.ParallelFor(len(items), func(_, i int) {
-		arena := make([]byte, arenaSize)
+		arena := newArena()
 		runStream(&items[i].c, items[i].cfg, arena)
 	})
 	rep.Eval(int64(len(items)))
@@ -581,7 +708,10 @@ func roundTripFamily(cfgs []*config) {
 }
 
 // longFamily: 4096-byte messages divided in a fixed list of ways, every aliasing layout.
-const longTotal = 4096
+const (
+	longTotal = 4096
+	longMat   = longTotal + 96 // stream material of the long configurations (a prefix and a probe fit around a 4096-byte call)
+)
 
 var longSplits = [][]int{{4096}, {1, 4095}, {4095, 1}, {2048, 2048}, {33, 4063}, {32, 4064}, {17, 4079}, {1000, 1000, 1000, 1096}, {4064, 16, 16}, {4063, 33}}
 
@@ -606,7 +736,7 @@ func longFamily(keySizes []int) {
 	for _, d := range []bool{false, true} {
 		for _, ks := range keySizes {
 			for m := 0; m < 2; m++ {
-				cfg := newConfigLen(d, ks, m, longTotal)
+				cfg := newConfigLen(d, ks, m, longMat)
 				for _, sp := range longSplits {
 					for a := range aliases {
 						calls := make([]Call, len(sp))
@@ -620,7 +750,7 @@ func longFamily(keySizes []int) {
 		}
 	}
 	engine.ParallelFor(len(items), func(_, i int) {
-		runStream(&items[i].c, items[i].cfg, make([]byte, 2*longTotal+64+2*guard))
+		runStream(&items[i].c, items[i].cfg, newLongArena())
 	})
 	rep.Eval(int64(len(items)))
 	atomic.AddInt64(&streamSeqs, int64(len(items)))
@@ -638,10 +768,14 @@ type half struct {
 	frag  []int
 	k     int
 	reads int
+	eof   bool // the writer is done: the Read that takes the last byte reports io.EOF together with it
 }
 
 type pipeEnd struct {
-	rd, wr *half
+	rd, wr  *half
+	nr, nw  int
+	onRead  func(k int) // inside the k-th Read, after the bytes were copied out
+	onWrite func(k int) // inside the k-th Write, before the bytes are taken
 }
 
 func (p *pipeEnd) Read(b []byte) (int, error) {
@@ -651,6 +785,9 @@ func (p *pipeEnd) Read(b []byte) (int, error) {
 	h := p.rd
 	avail := len(h.buf) - h.rpos
 	if avail == 0 {
+		if h.eof {
+			return 0, io.EOF
+		}
 		return 0, errEmpty
 	}
 	n := len(b)
@@ -666,10 +803,21 @@ func (p *pipeEnd) Read(b []byte) (int, error) {
 	copy(b[:n], h.buf[h.rpos:])
 	h.rpos += n
 	h.reads++
+	p.nr++
+	if p.onRead != nil {
+		p.onRead(p.nr)
+	}
+	if h.eof && h.rpos == len(h.buf) {
+		return n, io.EOF
+	}
 	return n, nil
 }
 
 func (p *pipeEnd) Write(b []byte) (int, error) {
+	p.nw++
+	if p.onWrite != nil {
+		p.onWrite(p.nw)
+	}
 	p.wr.buf = append(p.wr.buf, b...)
 	return len(b), nil
 }
@@ -723,6 +871,64 @@ func fragName(f []int) string {
 	}
 }
 
+// oneShotListener hands the prepared pipe end to mcnet.Listener.Accept.
+type oneShotListener struct{ c net.Conn }
+
+func (l *oneShotListener) Accept() (net.Conn, error) {
+	if l.c == nil {
+		return nil, errors.New("verif listener: no more connections")
+	}
+	c := l.c
+	l.c = nil
+	return c, nil
+}
+func (l *oneShotListener) Close() error   { return nil }
+func (l *oneShotListener) Addr() net.Addr { return pipeAddr{} }
+
+func normOrder(o string) string {
+	if o == "" {
+		return "TC"
+	}
+	if o != "TC" && o != "CT" {
+		engine.HarnessError("bad call order %q", o)
+	}
+	return o
+}
+
+// connShape is the part of a failure class that names the case's family (no raw values).
+func connShape(c *Case) string {
+	tn := "none"
+	if c.Threshold >= 0 {
+		tn = fmt.Sprint(c.Threshold)
+	}
+	shape := "T=" + tn + "," + fragName(c.Frag)
+	if c.CAt > 0 {
+		shape += ",cipher-enabled-mid-stream"
+	}
+	if c.TAt > 0 {
+		shape += ",threshold-set-mid-stream"
+	}
+	if c.TAt == c.CAt && (normOrder(c.OrderS) != "TC" || normOrder(c.OrderR) != "TC") {
+		shape += ",calls=" + normOrder(c.OrderS) + "/" + normOrder(c.OrderR)
+	}
+	if c.EOFData {
+		shape += ",eof-with-last-bytes"
+	}
+	if c.Accept {
+		shape += ",accepted-conn"
+	}
+	if c.Duplex != "" {
+		shape += ",duplex=" + c.Duplex
+	}
+	for _, sz := range c.Sizes {
+		if sz > 5000 {
+			shape += ",large-packet"
+			break
+		}
+	}
+	return shape
+}
+
 func runConn(c *Case) {
 	key, _, _ := material(0, c.KeySize, 64)
 	iv := key[:16]
@@ -730,29 +936,62 @@ func runConn(c *Case) {
 	if err != nil {
 		engine.HarnessError("aes: %v", err)
 	}
+	n := len(c.Sizes)
+	if c.TAt < 0 || c.TAt > n || c.CAt < 0 || c.CAt > n {
+		engine.HarnessError("set-up positions out of range: T@%d C@%d with %d packets", c.TAt, c.CAt, n)
+	}
+	if c.EOFData && c.Interleave {
+		engine.HarnessError("eof-with-last-bytes needs the batch schedule")
+	}
 	ab, ba := &half{}, &half{}
 	ea, eb := &pipeEnd{rd: ba, wr: ab}, &pipeEnd{rd: ab, wr: ba}
-	ca, cb := mcnet.WrapConn(ea), mcnet.WrapConn(eb)
-	ca.SetThreshold(c.Threshold)
-	cb.SetThreshold(c.Threshold)
-	ca.SetCipher(CFB8.NewCFB8Encrypt(blk, iv), CFB8.NewCFB8Decrypt(blk, iv))
-	cb.SetCipher(CFB8.NewCFB8Encrypt(blk, iv), CFB8.NewCFB8Decrypt(blk, iv))
-	snd, rcv, wire := ca, cb, ab
+	ca := mcnet.WrapConn(ea)
+	var cb *mcnet.Conn
+	if c.Accept {
+		l := mcnet.Listener{Listener: &oneShotListener{c: eb}}
+		acc, err := l.Accept()
+		if err != nil {
+			engine.HarnessError("Listener.Accept: %v", err)
+		}
+		cb = &acc
+	} else {
+		cb = mcnet.WrapConn(eb)
+	}
+	snd, rcv, wire, back := ca, cb, ab, ba
+	sndSock, rcvSock := ea, eb
 	if c.BtoA {
-		snd, rcv, wire = cb, ca, ba
+		snd, rcv, wire, back = cb, ca, ba, ab
+		sndSock, rcvSock = eb, ea
+	}
+	if c.Duplex != "" && (c.TAt != 0 || c.CAt != 0 || c.EOFData || c.DuplexAt < 1) {
+		engine.HarnessError("duplex cases use the plain set-up")
 	}
 	wire.frag = c.Frag
-	tn := "none"
-	if c.Threshold >= 0 {
-		tn = fmt.Sprint(c.Threshold)
+	back.frag = c.Frag
+	shape := connShape(c)
+	// setUp performs the end's SetThreshold / SetCipher calls that are due before packet k
+	nextSetUp := map[*mcnet.Conn]int{}
+	setUp := func(end *mcnet.Conn, order string, k int) {
+		if k < nextSetUp[end] {
+			return // already done (the duplex cases set both ends up before anything else)
+		}
+		nextSetUp[end] = k + 1
+		for _, call := range []byte(normOrder(order)) {
+			if call == 'T' && c.TAt == k {
+				end.SetThreshold(c.Threshold)
+			}
+			if call == 'C' && c.CAt == k {
+				end.SetCipher(CFB8.NewCFB8Encrypt(blk, iv), CFB8.NewCFB8Decrypt(blk, iv))
+			}
+		}
 	}
-	shape := "T=" + tn + "," + fragName(c.Frag)
 	fail := func(class string, k int, detail string) {
-		rep.FailLazy(class, len(c.Sizes)*100000+k*10000+sum(c.Sizes), func() engine.Failure {
+		rep.FailLazy(class, len(c.Sizes)*1000000000+k*100000000+sum(c.Sizes), func() engine.Failure {
 			cc := *c
 			cc.Sizes = append([]int(nil), c.Sizes...)
 			cc.Frag = append([]int(nil), c.Frag...)
-			return engine.Failure{Detail: fmt.Sprintf("key %d bytes, threshold %d, sizes %v, fragments %v: %s", c.KeySize, c.Threshold, c.Sizes, c.Frag, detail), Case: cc}
+			return engine.Failure{Detail: fmt.Sprintf("key %d bytes, threshold %d (set before packet %d), cipher set before packet %d, call orders %s/%s, sizes %v, fragments %v: %s",
+				c.KeySize, c.Threshold, c.TAt, c.CAt, normOrder(c.OrderS), normOrder(c.OrderR), c.Sizes, c.Frag, detail), Case: cc}
 		})
 	}
 	write := func(from *mcnet.Conn, k, size int) bool {
@@ -797,35 +1036,78 @@ func runConn(c *Case) {
 		}
 		return true
 	}
+	// full-duplex hooks (both ends are fully set up before the first packet in these cases)
+	reverseWritten, reverseRead, nestedFailed := false, false, false
+	switch c.Duplex {
+	case "":
+	case "write-during-read":
+		rcvSock.onRead = func(k int) {
+			if k == c.DuplexAt && !reverseWritten {
+				reverseWritten = true
+				if !write(rcv, 3, 33) {
+					nestedFailed = true
+				}
+			}
+		}
+	case "read-during-write":
+		setUp(snd, c.OrderS, 0)
+		setUp(rcv, c.OrderR, 0)
+		if !write(rcv, 3, 33) {
+			return
+		}
+		reverseWritten = true
+		sndSock.onWrite = func(k int) {
+			if k == c.DuplexAt && !reverseRead {
+				reverseRead = true
+				if !read(snd, 3, 33) {
+					nestedFailed = true
+				}
+			}
+		}
+	default:
+		engine.HarnessError("unknown duplex mode %q", c.Duplex)
+	}
 	if c.Interleave {
 		for k, sz := range c.Sizes {
-			if !write(snd, k, sz) || !read(rcv, k, sz) {
+			setUp(snd, c.OrderS, k)
+			if !write(snd, k, sz) || nestedFailed {
+				return
+			}
+			setUp(rcv, c.OrderR, k)
+			if !read(rcv, k, sz) || nestedFailed {
 				return
 			}
 		}
+		setUp(snd, c.OrderS, n)
+		setUp(rcv, c.OrderR, n)
 	} else {
 		for k, sz := range c.Sizes {
-			if !write(snd, k, sz) {
+			setUp(snd, c.OrderS, k)
+			if !write(snd, k, sz) || nestedFailed {
 				return
 			}
 		}
+		setUp(snd, c.OrderS, n)
+		wire.eof = c.EOFData
 		for k, sz := range c.Sizes {
-			if !read(rcv, k, sz) {
+			setUp(rcv, c.OrderR, k)
+			if !read(rcv, k, sz) || nestedFailed {
 				return
 			}
 		}
+		setUp(rcv, c.OrderR, n)
 	}
 	if rest := len(wire.buf) - wire.rpos; rest != 0 {
 		fail("conn/ReadPacket/bytes-left-over/"+shape, len(c.Sizes), fmt.Sprintf("%d bytes unread after the last packet", rest))
 		return
 	}
-	// the opposite direction still works (its streams are independent): one packet back
-	back := ab
-	if !c.BtoA {
-		back = ba
+	// the opposite direction still works (its streams are independent): one packet back, always
+	// after both ends have made both calls
+	if !reverseWritten && !write(rcv, 3, 33) {
+		return
 	}
-	back.frag = c.Frag
-	if !write(rcv, 3, 33) || !read(snd, 3, 33) {
+	back.eof = c.EOFData
+	if !reverseRead && !read(snd, 3, 33) {
 		return
 	}
 	if rest := len(back.buf) - back.rpos; rest != 0 {
@@ -872,7 +1154,7 @@ func connFamily(maxLen int, frags [][]int) {
 	}
 	engine.ParallelFor(len(shards), func(_, i int) {
 		sh := shards[i]
-		if time.Now().After(deadline) {
+		if pastDeadline() {
 			atomic.AddInt64(&skippedShards, 1)
 			return
 		}
@@ -943,7 +1225,7 @@ func selftest() {
 
 func main() {
 	rep = engine.NewReport("C10")
-	rep.Rule = "stream: every XORKeyStream call sequence of depth <= D over 17 lengths x 4 aliasing layouts from the initial state, plus (prefix p in 0..32) x (every op | every op tuple) x 40-byte probe, x {encrypt,decrypt} x key sizes {16,24,32} x 2 materials; 4096-byte messages divided 12 ways x 7 aliasing layouts; conn: thresholds {-1,0,64} x every size sequence of length <= K over 8 sizes x 2 directions x read-fragmentation patterns x {batch,interleaved} x 3 key sizes. distinct = distinct (configuration, call/packet sequence) tuples; non-trivial = all (every one drives the real cipher and is judged byte for byte)"
+	rep.Rule = "stream: every XORKeyStream call sequence of depth <= D over 17 lengths x 4 aliasing layouts from the initial state, plus (prefix p in 0..32) x (every op | every op tuple) x 40-byte probe, x {encrypt,decrypt} x key sizes {16,24,32} x 2 materials; 4096-byte messages divided 12 ways x 7 aliasing layouts; conn: thresholds {-1,0,64} x every size sequence of length <= K over 8 sizes x 2 directions x read-fragmentation patterns x {batch,interleaved} x 3 key sizes. Audit families (menus under coverage.*): every call length 0..4096 x 7 layouts x {no prefix, 17} + probe; 4 histories of the caller's IV slice x every call sequence of depth <= 2 + probe; 16 src address residues x every single operation; conn set-up histories (SetThreshold before packet i x SetCipher before packet j x call orders x {WrapConn, Listener.Accept} x {batch, batch with (n,io.EOF), interleaved}) x size sequences of length <= K2 over 4 sizes; large packets 4 KiB..1 MiB; sizes around thresholds {1,64,256}; full-duplex: a whole WritePacket/ReadPacket of the other direction inside the k-th socket Read/Write. distinct = distinct (configuration, call/packet sequence) tuples; non-trivial = all (every one drives the real cipher and is judged byte for byte)"
 	cfgsFor := func(keySizes []int) []*config {
 		var out []*config
 		for _, d := range []bool{false, true} {
@@ -970,9 +1252,9 @@ func main() {
 				runConn(&c)
 			} else {
 				if c.Long {
-					runStream(&c, newConfigLen(c.Decrypt, c.KeySize, c.Material, longTotal), make([]byte, 2*longTotal+64+2*guard))
+					runStream(&c, newConfigLen(c.Decrypt, c.KeySize, c.Material, longMat), newLongArena())
 				} else {
-					runStream(&c, newConfig(c.Decrypt, c.KeySize, c.Material), make([]byte, arenaSize))
+					runStream(&c, newConfig(c.Decrypt, c.KeySize, c.Material), newArena())
 				}
 			}
 		}
@@ -988,9 +1270,9 @@ func main() {
 		frags = append(append([][]int{}, fragsQuick...), fragsMore...)
 	}
 	t0 := time.Now()
-	deadline = t0.Add(75 * time.Second)
+	cpuBudget = 75 * time.Second * time.Duration(engine.Workers())
 	if rep.Thorough() {
-		deadline = t0.Add(14 * time.Minute)
+		cpuBudget = 14 * time.Minute * time.Duration(engine.Workers())
 	}
 	// (i) all sequences from the initial state
 	exploreDepth(cfgs, D, nAliasCore, []int{-1}, false)
@@ -1009,9 +1291,29 @@ func main() {
 	t3 := time.Now()
 	connFamily(K, frags)
 	t4 := time.Now()
+	// audit families (extra.go)
+	sweepKeys, sweepPrefixes, sweepMaterials := []int{16, 24, 32}, []int{-1, 17}, []int{1}
+	largeSizes := largeSizesQuick
+	K2 := 3
+	if rep.Thorough() {
+		sweepPrefixes, sweepMaterials = []int{-1, 1, 16, 17, 32}, []int{0, 1}
+		largeSizes = append(append([]int{}, largeSizesQuick...), largeSizesMore...)
+		K2 = 4
+	}
+	sweepFamily(sweepKeys, sweepPrefixes, sweepMaterials)
+	t5 := time.Now()
+	ivFamily(cfgs)
+	alignFamily(cfgs)
+	t6 := time.Now()
+	setupFamily(K2)
+	t7 := time.Now()
+	largeFamily(largeSizes)
+	edgeFamily()
+	duplexFamily()
+	t8 := time.Now()
 
 	if skippedShards > 0 {
-		rep.Cap("deadline reached: %d shards (configuration x prefix x first operation, or conn threshold x key size x fragmentation x direction) not executed", skippedShards)
+		rep.Cap("CPU budget used up: %d shards (configuration x prefix x first operation, or conn threshold x key size x fragmentation x direction) not executed", skippedShards)
 	}
 	var cov, st int64
 	for d := range covered {
@@ -1058,7 +1360,15 @@ func main() {
 	rep.Extra("read_fragment_patterns", frags)
 	rep.Extra("call_lengths", lens)
 	rep.Extra("aliasing_layouts", aliases)
-	rep.Extra("phase_wall_s", map[string]float64{"depth": t1.Sub(t0).Seconds(), "positions": t2.Sub(t1).Seconds(), "roundtrip": t3.Sub(t2).Seconds(), "conn": t4.Sub(t3).Seconds()})
+	rep.Extra("phase_wall_s", map[string]float64{"depth": t1.Sub(t0).Seconds(), "positions": t2.Sub(t1).Seconds(), "roundtrip": t3.Sub(t2).Seconds(), "conn": t4.Sub(t3).Seconds(),
+		"every_length": t5.Sub(t4).Seconds(), "iv_and_alignment": t6.Sub(t5).Seconds(), "conn_setup": t7.Sub(t6).Seconds(), "conn_large_and_edges": t8.Sub(t7).Seconds()})
+	rep.Count("every_call_length_cases", sweepCases)
+	rep.Count("iv_buffer_history_cases", ivCases)
+	rep.Count("src_alignment_cases", alignCases)
+	rep.Count("conn_setup_history_cases", setupCases)
+	rep.Count("conn_large_packet_cases", largeCases)
+	rep.Count("conn_threshold_edge_cases", edgeCases)
+	rep.Count("conn_full_duplex_cases", duplexCases)
 	rep.Sample(Case{Part: "stream", KeySize: 16, Material: 0, Prefix: 17, Calls: []Call{{33, "dst-high"}, {1, "inplace"}}, Probe: true})
 	rep.Sample(Case{Part: "conn", KeySize: 32, Prefix: -1, Threshold: 64, Sizes: []int{5000, 0, 17}, Frag: []int{33, 1}})
 	rep.Assume("AES itself (crypto/aes) is shared by implementation and reference: the property is about the mode; the reference mode is pinned to NIST SP 800-38A F.3.7-F.3.12")
